@@ -57,13 +57,15 @@ Qed.
 (* the part of the fixnum branch that works on the absolute values *)
 Definition round_fix_abs (a b : Z) : Z * Z :=
   let q := gquot a b in let r := wrap64 (a - wrap64 (q * b)) in
-  let dif := wrap64 (r * 2) in
-  if (b <? dif) || ((dif =? b) && negb (grem q 2 =? 0)) then (wrap64 (q + 1), wrap64 (a - wrap64 (wrap64 (q + 1) * b))) else (q, r).
+  let rest := wrap64 (b - r) in
+  if (rest <? r) || ((rest =? r) && negb (grem q 2 =? 0)) then (wrap64 (q + 1), wrap64 (a - wrap64 (wrap64 (q + 1) * b))) else (q, r).
 
 Lemma round_fix_unfold tn d : round_fix Round tn d =
-  if d =? 0 then RCond CFault else
+  if d =? 0 then RCond CDivZero else
+  if (tn =? - two63) && (d =? -1) then RVals (VBig (- tn)) (VFix 0) else
   let q0 := gquot tn d in let r0 := wrap64 (tn - wrap64 (q0 * d)) in
   if r0 =? 0 then RVals (VFix q0) (VFix r0)
+  else if (tn =? - two63) || (d =? - two63) then round_big Round tn d
   else
     let ns := tn <? 0 in let tn' := if ns then wrap64 (- tn) else tn in
     let ds := d <? 0 in let d' := if ds then wrap64 (- d) else d in
@@ -74,20 +76,20 @@ Lemma round_fix_unfold tn d : round_fix Round tn d =
 Proof. reflexivity. Qed.
 
 Lemma round_fix_abs_correct a b :
-  0 <= a < two63 -> 0 < b < two63 -> a mod b <> 0 -> 2 * (a mod b) < two63 ->
+  0 <= a < two63 -> 0 < b < two63 -> a mod b <> 0 ->
   exists Q, round_fix_abs a b = (Q, a - Q * b) /\ is_round a b Q /\ 0 <= Q < two63 /\ 2 * Z.abs (a - Q * b) <= b.
 Proof.
-  intros Ha Hb Hr Hd. unfold round_fix_abs, gquot, grem.
+  intros Ha Hb Hr. unfold round_fix_abs, gquot, grem.
   rewrite Z.quot_div_nonneg by lia.
   pose proof (Z.div_mod a b ltac:(lia)) as E. pose proof (Z.mod_pos_bound a b ltac:(lia)) as Hm.
   remember (a / b) as q. remember (a mod b) as r.
   assert (Hq : 0 <= q <= a) by nia.
   assert (Iq : in64 q = true) by (apply in64_spec; unfold two63 in *; lia).
-  rewrite (wrap64_id _ Iq). rewrite !wrap64_sub_wrap. rewrite (Z.rem_mod_nonneg q 2) by lia.
+  rewrite (wrap64_id _ Iq). rewrite (wrap64_sub_wrap a (q * b)). rewrite (Z.rem_mod_nonneg q 2) by lia.
   replace (a - q * b) with r by lia.
   assert (Ir : in64 r = true) by (apply in64_spec; unfold two63 in *; lia).
-  rewrite (wrap64_id _ Ir).
-  assert (Id : in64 (r * 2) = true) by (apply in64_spec; unfold two63 in *; lia).
+  rewrite (wrap64_id _ Ir). rewrite !wrap64_sub_wrap.
+  assert (Id : in64 (b - r) = true) by (apply in64_spec; unfold two63 in *; lia).
   rewrite (wrap64_id _ Id).
   assert (Hb2 : 2 <= b) by lia.
   assert (Iq1 : in64 (q + 1) = true) by (apply in64_spec; unfold two63 in *; nia).
@@ -97,7 +99,7 @@ Proof.
   assert (Hodd : negb (q mod 2 =? 0) = negb (Z.even q)).
   { rewrite Zmod_even. destruct (Z.even q); reflexivity. }
   rewrite Hodd.
-  destruct ((b <? r * 2) || ((r * 2 =? b) && negb (Z.even q))) eqn:C.
+  destruct ((b - r <? r) || ((b - r =? r) && negb (Z.even q))) eqn:C.
   - exists (q + 1). split; [reflexivity|]. unfold is_round. rewrite even_succ_negb.
     replace (a - (q + 1) * b) with (r - b) by lia.
     apply orb_true_iff in C as [C|C].
@@ -130,13 +132,16 @@ Proof.
   intros Hp. cbn [in_domain] in Hp. apply andb_true_iff in Hp as [Hf Hp].
   destruct (all_fix_spec args Hf) as [Hargs Hin]. remember (fixes args) as zs. rewrite Hargs in *. clear Hargs Heqzs Hf.
   destruct zs as [|n [|d [|? ?]]]; try discriminate.
+  destruct (d =? 0) eqn:Hnz; [apply Z.eqb_eq in Hnz; subst d; reflexivity|].
+  cbn [orb] in Hp.
+  destruct ((n =? - two63) && (d =? -1)) eqn:Hq;
+    [apply andb_true_iff in Hq as [Hq Hm]; apply Z.eqb_eq in Hq, Hm; subst n d; vm_compute; reflexivity|].
+  cbn [orb] in Hp.
   cbn in Hin. apply andb_true_iff in Hin as [Hn Hin]. apply andb_true_iff in Hin as [Hd _].
-  apply andb_true_iff in Hp as [Hp Hm]. apply andb_true_iff in Hp as [Hnz Hq].
-  apply andb_true_iff in Hm as [Hm H2r]. apply andb_true_iff in Hm as [Han Had].
-  apply negb_true_iff in Hnz.
   cbn [map s_out denotes denote m_op m_round s_op norm_kind as_int]. rewrite Hnz.
-  rewrite round_fix_unfold, Hnz. cbv zeta.
+  rewrite round_fix_unfold, Hnz, Hq. cbv zeta.
   apply in64_spec in Hn, Hd. apply Z.eqb_neq in Hnz.
+  apply (quot_in64 n d Hn Hd Hnz) in Hq.
   destruct (quot_facts n d Hnz Hn Hd) as (E & H1 & H2 & R).
   replace (gquot n d) with (Z.quot n d) by (unfold gquot; symmetry; apply wrap64_id, Hq).
   rewrite wrap64_sub_wrap, (wrap64_id _ H2), R.
@@ -146,18 +151,21 @@ Proof.
     assert (Q : s_quot Round n d = Z.quot n d).
     { apply round_unique; [exact Hnz|]. left. rewrite R, Hr0. cbn. lia. }
     rewrite Q, R, Hr0, (canon_int_fix _ Hq). reflexivity.
-  - rewrite (fix_abs_eq _ Han), (fix_abs_eq _ Had).
+  - cbn [orb] in Hp. apply andb_true_iff in Hp as [Han Had].
+    assert (Hmin : (n =? - two63) || (d =? - two63) = false).
+    { apply in64_spec in Han, Had. apply orb_false_iff. split; apply Z.eqb_neq; unfold two63 in *; lia. }
+    rewrite Hmin.
+    rewrite (fix_abs_eq _ Han), (fix_abs_eq _ Had).
     destruct (Z.eqb_spec (Z.abs d) 0) as [?|_]; [lia|].
-    apply in64_spec in Han, Had, H2r.
+    apply in64_spec in Han, Had.
     assert (Hmod : Z.rem (Z.abs n) (Z.abs d) = Z.abs n mod Z.abs d) by (apply Z.rem_mod_nonneg; lia).
-    rewrite Hmod in H2r.
     assert (Hmnz : Z.abs n mod Z.abs d <> 0).
     { rewrite <- Hmod, Z.rem_abs by exact Hnz. intros HH. apply -> Z.abs_0_iff in HH. contradiction. }
     assert (A1 : 0 <= Z.abs n < two63) by (split; [apply Z.abs_nonneg|apply Han]).
     assert (A2 : 0 < Z.abs d < two63) by (split; [apply Z.abs_pos; exact Hnz|apply Had]).
-    destruct (round_fix_abs_correct (Z.abs n) (Z.abs d) A1 A2 Hmnz (proj2 H2r)) as (Q & EQ & HR & HQ & HRb).
+    destruct (round_fix_abs_correct (Z.abs n) (Z.abs d) A1 A2 Hmnz) as (Q & EQ & HR & HQ & HRb).
     rewrite EQ. remember (Z.abs n - Q * Z.abs d) as Rm eqn:ERm.
-    clear E H1 H2 R Hr0 Hmod Hmnz H2r Hq EQ.
+    clear E H1 H2 R Hr0 Hmod Hmnz Hq EQ Hmin.
     assert (Ineg : forall z, - two63 < z < two63 -> in64 z = true /\ in64 (- z) = true)
       by (intros z Hz; split; apply in64_spec; lia).
     assert (HRm : - two63 < Rm < two63) by (unfold two63 in *; lia).
@@ -482,20 +490,20 @@ Lemma s_round1 m nn nd : s_op (ORound m) [(nn, nd)] =
   RVals (canon_int (s_quot m nn nd)) (canon (nn - s_quot m nn nd * nd) nd).
 Proof. cbn [s_op fst snd]. destruct nd as [|[?|?|]|?]; reflexivity. Qed.
 
-Lemma round_operands m args : m <> Round -> o_args (m_round m args) = args.
+Lemma round_operands m args : o_args (m_round m args) = args.
 Proof.
-  intros Hm. unfold m_round. destruct args as [|n [|d [|? ?]]]; try reflexivity.
-  - destruct (norm_kind n (VFix 1)); destruct m; try congruence; reflexivity.
-  - destruct (norm_kind n d); destruct m; try congruence; reflexivity.
+  unfold m_round. destruct args as [|n [|d [|? ?]]]; try reflexivity.
+  - destruct (norm_kind n (VFix 1)); reflexivity.
+  - destruct (norm_kind n d); reflexivity.
 Qed.
 
 Theorem round_value_exact m args : round_value_domain args = true ->
   exists so, s_out (ORound m) args = Some so /\
     res_same_value (o_res so) (o_res (m_op (ORound m) args)) = true /\
-    (m <> Round -> o_args (m_op (ORound m) args) = args).
+    o_args (m_op (ORound m) args) = args.
 Proof.
   unfold round_value_domain. rewrite andb_true_iff. intros [Hwf Hs].
-  assert (Hops : m <> Round -> o_args (m_op (ORound m) args) = args) by (apply round_operands).
+  assert (Hops : o_args (m_op (ORound m) args) = args) by (apply round_operands).
   destruct args as [|n [|d [|? ?]]]; try discriminate.
   - (* one operand: the divisor is the fixnum 1 *)
     cbn [forallb] in Hwf. apply andb_true_iff in Hwf as [Wn _].
